@@ -589,6 +589,7 @@ func monitorStep(scn Scn, tr *Trace, src *source, fulls []*fullCall, waitingLive
 			tr.Features["end"] = true
 			if src.term == "err" {
 				tr.add("c08-error-replaced-by-end", "the source failed but Next reported the normal end")
+				tr.add("c11-error-replaced-by-end", "the source failed but Next reported the normal end")
 			} else if src.term == "" {
 				tr.add("c11-end-without-source-end", "Next reported End although the source has not ended")
 			}
@@ -603,9 +604,11 @@ func monitorStep(scn Scn, tr *Trace, src *source, fulls []*fullCall, waitingLive
 			tr.Features["err"] = true
 			if src.term != "err" {
 				tr.add("c08-spurious-error", "Next reported the source's error although the source has not failed")
+				tr.add("c11-spurious-error", "Next reported the source's error although the source has not failed")
 			}
 			if !isPrefix || len(concat) != len(handed) {
 				tr.add("c08-error-before-items", fmt.Sprintf("source error reported; batches concatenate to %v, the source handed out %v before failing", concat, handedVals()))
+				tr.add("c11-error-before-items", fmt.Sprintf("source error reported; batches concatenate to %v, the source handed out %v before failing", concat, handedVals()))
 			}
 		case "ctx":
 			tr.Features["ctxfail"] = true
@@ -614,6 +617,7 @@ func monitorStep(scn Scn, tr *Trace, src *source, fulls []*fullCall, waitingLive
 			}
 		default:
 			tr.add("c08-other-error", "Next returned an unexpected error: "+r.detail)
+			tr.add("c11-other-error", "Next returned an unexpected error: "+r.detail)
 		}
 	}
 	// a live consumer is waiting at quiescence: nothing may be held back from it
